@@ -200,8 +200,8 @@ func runC01(cfg config) {
 			fnames = append(fnames, nme)
 		}
 		sortStrings(fnames)
-		foci := []string{"0", "1", "(-1)", "1.5", "2147483647", "(-2147483647 - 1)", "123456789012345678901234567890.12345678", "0.00000001", "(700.exp() * 700.exp())", "(0 - 700.exp() * 700.exp())", "'12'", "4 'mg'", "@2020-02-29", "{}"}
-		argsPool := []string{"0", "1", "-1", "2147483647", "-2147483647 - 1", "1.5", "123456789012345678901234567890.12345678", "700.exp() * 700.exp()", "'a'", "{}"}
+		foci := []string{"0", "0.0", "0.00", "(1.5 - 1.5)", "(0.0 - 0.0)", "1", "(-1)", "1.5", "2147483647", "(-2147483647 - 1)", "123456789012345678901234567890.12345678", "0.00000001", "(700.exp() * 700.exp())", "(0 - 700.exp() * 700.exp())", "'12'", "4 'mg'", "@2020-02-29", "{}"}
+		argsPool := []string{"0", "0.0", "-1.0", "-64", "64", "-65", "1", "-1", "2147483647", "-2147483647 - 1", "1.5", "123456789012345678901234567890.12345678", "700.exp() * 700.exp()", "'a'", "{}"}
 		for _, fn := range fnames {
 			lo, hi := bounds[fn][0], bounds[fn][1]
 			for _, f := range foci {
